@@ -489,6 +489,20 @@ func (c *Ctx) prefixFilterD(fd *ast.FuncDecl, cond ast.Expr, depth int) (prefix 
 				}
 			}
 		}
+		// the case-insensitive spelling: strings.EqualFold(name[:len(K)], K) (its length test is codec-no-panic's business)
+		if ok && c.isPkgFunc(call, "strings", "EqualFold") && len(call.Args) == 2 {
+			for _, pr := range [][2]ast.Expr{{call.Args[0], call.Args[1]}, {call.Args[1], call.Args[0]}} {
+				k, isConst := c.constString(pr[1])
+				sl, isSlice := unparen(pr[0]).(*ast.SliceExpr)
+				if !isConst || !isSlice || sl.Low != nil || sl.High == nil {
+					continue
+				}
+				if tv, has := c.Info.Types[sl.High]; has && tv.Value != nil && tv.Value.String() == fmt.Sprint(len(k)) {
+					prefix, lowered, found = strings.ToLower(k), true, true
+				}
+			}
+			return true
+		}
 		if !ok || !c.isPkgFunc(call, "strings", "HasPrefix") || len(call.Args) != 2 {
 			return true
 		}
